@@ -258,7 +258,7 @@ fn strategy(tier: Tier) -> BoxedStrategy<Case> {
     };
     // half of the cases drive one set object through 1-8 operations
     let ops = || prop_oneof![1 => Just(Vec::new()), 1 => vec((0u8..7, any::<u16>()), 1..=8)];
-    let paths = || prop_oneof![6 => Just(PathSel::Bin(3)), 2 => Just(PathSel::Bin(2)), 1 => Just(PathSel::Bin(1)), 2 => Just(PathSel::Jax), 1 => Just(PathSel::RoundTrip), 1 => Just(PathSel::BuilderDefaults)];
+    let paths = || prop_oneof![6 => Just(PathSel::Bin(3)), 2 => Just(PathSel::Bin(2)), 1 => Just(PathSel::Bin(1)), 2 => Just(PathSel::Jax), 1 => Just(PathSel::JaxT), 1 => Just(PathSel::RoundTrip), 1 => Just(PathSel::BuilderDefaults)];
     prop_oneof![
         12 => (gen::facts(cfg), vec(any::<u16>(), 0..12), paths(), ops()).prop_map(mk),
         1 => (gen::facts(big), vec(any::<u16>(), 30..90), paths(), ops()).prop_map(mk),
